@@ -182,6 +182,9 @@ impl Check for C13 {
         let (regs, limit) = if storm { (None, Some(0xFF)) } else { (regs, limit) };
         let max_edges = if storm {
             12_000 + rng.below(12_000) as u32
+        } else if rng.chance(1, 2000) {
+            // ultra-marathon: more than 2^20 executed edges
+            1_100_000 + rng.below(1_100_000) as u32
         } else if rng.chance(1, 300) {
             // marathon: counters that only overflow after tens of thousands of edges
             66_000 + rng.below(70_000) as u32
@@ -197,6 +200,19 @@ impl Check for C13 {
             let t0 = rng.below(max_edges as u64) as u32;
             for k in 0..17 + rng.below(300) as u32 {
                 events.push((t0 + k / 4, if rng.chance(1, 6) { Stim::BusRead(a) } else { Stim::BusWrite(a, rng.u8()) }));
+            }
+        }
+        if max_edges > 60_000 {
+            // long runs start with the timer / UART registers configured (enabled timer with and
+            // without a divider, ...), so that whatever those registers count has time to overflow
+            for _ in 0..rng.below(4) {
+                let (a, val) = match rng.below(4) {
+                    0 => (0xFD, 0x90 | (rng.u8() & 0x6F)),
+                    1 => (0xFD, rng.u8()),
+                    2 => (0xFC, rng.u8()),
+                    _ => (0xFB, rng.u8()),
+                };
+                events.push((rng.below(50) as u32, Stim::BusWrite(a, val)));
             }
         }
         if storm {
